@@ -376,6 +376,7 @@ Section RUN.
   Definition join_check (s : state) (v : nat) (c j : tid) : state :=
     let tj := getth s j in
     if tstate_eqb (th_state tj) NOTCREATED then stuck s else                       (* no such thread: undefined in C++ *)
+    if negb (th_joinable tj) then ret s c 0 38 else                                (* 1546-1548: not joinable -> nullptr, ENOSYS *)
     if negb (lock_free (th_lock tj)) then s else                                   (* spin *)
     if tstate_eqb (th_state tj) DONE then
       let s1 := modth s j (fun x => set_g_joinval (set_g_joinret (set_g_disposed (set_th_lock x LJoin) (S (g_disposed x)))
